@@ -1234,10 +1234,12 @@ class Term(Container):
             if o.sympy.is_number:
                 key = "num"
             elif o.contains_only_orb_energies:
+                # the sign of the exponent is encoded in the key
                 key = "denom" if exponent < 0 else "num"
+                exponent = abs(exponent)
             else:
                 key = 'remainder'
-            ret[key] *= Pow(base, abs(exponent))
+            ret[key] *= Pow(base, exponent)
         return ret
 
     @property
